@@ -439,6 +439,14 @@ func main() {
 				}
 				continue
 			}
+			if _, ok := cs.Field("seq"); ok {
+				k := "replay"
+				if len(kind.Args()) > 0 {
+					k = kind.Args()[0].Atom
+				}
+				replaySeq(c, k, cs)
+				continue
+			}
 			cm, _ := cs.Field("commits")
 			for _, x := range cm.Args() {
 				g.sigs = append(g.sigs, sig{unstr(x.List[0]), unstr(x.List[1])})
@@ -495,4 +503,5 @@ func main() {
 	}
 	mailmapStreams(c)
 	scaleStreams(c)
+	seqStreams(c)
 }
